@@ -14,9 +14,9 @@ the unbounded model — the one all other properties are proved about — comput
 is the product of wrapped arithmetic.  `MonthShape` and `Date` arguments range over the
 values the API hands out (shapes returned by `month_shape`, canonical dates — C06).
 
-Not covered here: the chrono/time conversions (C16 models the foreign crates abstractly), the
-iterators' index arithmetic (C17 proves `MonthIter` never reaches its `.expect`; `Dates::new`
-only steps `start`/`end` inside `1..=31`), `str::parse` and formatting internals (std).
+Not covered here: the chrono/time conversions (C16 models the foreign crates abstractly),
+`RangeInclusive`'s own stepping (core; C17 proves `MonthIter` never reaches its `.expect`),
+`str::parse` and formatting internals (std).
 -/
 import JulianVerif.Lemmas.CheckedMisc
 namespace JV.C05
@@ -133,6 +133,17 @@ theorem succ_pred_no_panic (d : Date) (hc : WF d.calendar) (hj : InI32 d.jdn)
   have hk := B.dayOrdinal_range d.year d.ordinal d.month d.day d.dayOrdinal hp
   exact ⟨B.succ_eq d rfl hcan hj, B.pred_eq d rfl hcan hj,
     Chk.ordinal0_eq d ho1 (by omega), Chk.dayOrdinal0_eq d hk.1 hk.2⟩
+
+/-- the two trimming loops of `Dates::new` (fix F5; seeded change C05-a dropped the
+`start <= end` guard of the second one): `start += 1` and `end -= 1` never leave u32, for any
+month shape whatsoever -/
+theorem dates_new_no_overflow (s : MonthShape) (hl : s.len ≤ 4294967294) :
+    Chk.trimStart s (s.len.toNat + 1) 1 s.len = some (Dates.trimStart s (s.len.toNat + 1) 1 s.len)
+    ∧ Chk.trimEnd s (s.len.toNat + 1) (Dates.trimStart s (s.len.toNat + 1) 1 s.len) s.len
+        = some (Dates.trimEnd s (s.len.toNat + 1) (Dates.trimStart s (s.len.toNat + 1) 1 s.len) s.len) := by
+  refine ⟨Chk.trimStart_eq s _ 1 s.len (by omega) hl, ?_⟩
+  have := Chk.trimStart_ge s (s.len.toNat + 1) 1 s.len
+  exact Chk.trimEnd_eq s _ _ s.len (by omega) (by omega)
 
 /-! ### weekdays and timestamps -/
 
